@@ -37,6 +37,8 @@ type concParams struct {
 	Where bool `json:"where,omitempty"`
 	// Faults are armed on the storage when the concurrent window opens.
 	Faults []faultSpec `json:"faults,omitempty"`
+	// Rev: second base schedule (vsched.Options.ReverseOthers) inside the concurrent window.
+	Rev bool `json:"rev,omitempty"`
 }
 
 // linInput / linOutput are the porcupine operation payloads.
@@ -179,7 +181,7 @@ func runConc(p *concParams, prefix []int, extra func(w *harness.World, cr *concR
 	defer func() { vsched.WantWhere = false }()
 	var clock int64
 	tick := func() int64 { clock++; return clock }
-	r := vsched.Run(vsched.Options{Prefix: prefix}, func() {
+	r := vsched.Run(vsched.Options{Prefix: prefix, ReverseOthers: p.Rev}, func() {
 		w := harness.NewWorld(harness.Config{Name: p.Cfg})
 		if p.NoMerge {
 			w.OpenOpts = func(o *opt.Options) { o.NoWriteMerge = true }
